@@ -19,7 +19,7 @@ SEMANTIC = (
     "postcondition not satisfied", "precondition not satisfied", "assertion failed", "invariant not satisfied",
     "possible arithmetic underflow/overflow", "possible division by zero", "decreases not satisfied",
     "possible bit shift underflow/overflow", "loop invariant", "unreachable", "recommendation not met",
-    "could not prove termination", "cannot show invariant", "possible truncation",
+    "could not prove termination", "cannot show invariant", "possible truncation", "unable to prove",
 )
 RESOURCE = ("rlimit", "resource limit", "timed out", "timeout", "solver", "memory")
 
@@ -66,6 +66,16 @@ def obligations_of(unit, text, meta):
     lines = text.split("\n")
     obs = {}
     labels = {int(k): v for k, v in meta["labels"].items()}
+    # labels on body-less trait methods are instantiated once per impl of that trait
+    trait_labels = {}
+    for f in meta["fns"]:
+        if f["has_body"] or f["mode"] == "spec":
+            continue
+        l0, l1 = f["lines"]
+        own = [(ln, lab) for ln, lab in labels.items() if l0 <= ln <= l1]
+        if own:
+            trait_labels.setdefault(f["name"], []).extend(own)
+    meta["trait_label_lines"] = {str(ln): name for name, lst in trait_labels.items() for ln, _ in lst}
     for f in meta["fns"]:
         if not f["has_body"]:
             continue
@@ -93,6 +103,9 @@ def obligations_of(unit, text, meta):
             continue
         for ln, lab in own:
             obs[f"{unit}/{lab}"] = {"kind": "clause", "fn": f["qname"], "line": ln, "text": lines[ln - 1].strip()}
+        if f["qname"].startswith("<") and " for " in f["qname"] and f["name"] in trait_labels:
+            for ln, lab in trait_labels[f["name"]]:
+                obs[f"{unit}/{f['qname']}::{lab.split('::')[-1]}"] = {"kind": "clause", "fn": f["qname"], "line": ln, "text": lines[ln - 1].strip(), "trait_clause": True}
         if f["mode"] == "exec":
             obs[f"{unit}/{f['qname']}::safety"] = {"kind": "safety", "fn": f["qname"], "line": l0, "text": "no panic site of this function can fire under its precondition (expect/unwrap/index/slice/arithmetic/assert), callee preconditions hold"}
         elif not own:
@@ -198,16 +211,29 @@ def run(unit, seed=0, rlimit=None, extra=None, only_fn=None, multiple_errors=8):
             continue
         labels = {int(k): v for k, v in meta["labels"].items()}
         ob = None
+        tl = meta.get("trait_label_lines", {})
         if "postcondition" in low or "invariant" in low or "assertion failed" in low or "decreases" in low:
             # the primary span is the failed clause
             for s in d["spans"]:
                 for ll in range(s["line_start"], s["line_end"] + 1):
                     if ll in labels and s.get("is_primary"):
-                        ob = f"{unit}/{labels[ll]}"
-            if ob is None:
-                for s in d["spans"]:
-                    if s.get("is_primary") and s["line_start"] in labels:
-                        ob = f"{unit}/{labels[s['line_start']]}"
+                        if str(ll) in tl:
+                            # clause stated on the trait: the failing impl is where the other span points
+                            for s2 in d["spans"]:
+                                ff = enclosing_fn(meta, s2["line_start"])
+                                if ff is not None and ff.get("has_body") and ff["name"] == tl[str(ll)]:
+                                    ob = f"{unit}/{ff['qname']}::{labels[ll].split('::')[-1]}"
+                        else:
+                            ob = f"{unit}/{labels[ll]}"
+        if ob is None and "closure" in low:
+            # a closure inside an impl does not deliver its stated per-element result: charge the fn's first clause
+            for s in d["spans"]:
+                ff = enclosing_fn(meta, s["line_start"])
+                if ff is not None:
+                    cl = [k for k, v in obs.items() if v["fn"] == ff["qname"] and v["kind"] == "clause"]
+                    if cl:
+                        ob = cl[0]
+                        break
         f = None
         if ob is None:
             # safety class: attribute to the function whose body contains the failing site
